@@ -163,7 +163,9 @@ def run_sweep(spec):
             o.metric("temperature_deviation_K", dt)
             o.check(dt <= 1e-8, "temperatures_differ", "%.3e K" % dt)
     o.check(max(abs(a - b) / max(abs(a), 1e-300) for a, b in zip(f0, f1)) <= 1e-12, "flow_rates_differ")
-    o.check(max(abs(a - b) / max(abs(a), 1e-300) for a, b in zip(p0, p1)) <= 1e-9, "pressure_drops_differ")
+    # (an undefined pressure drop - friction correlation far below its range - is the same in both unit systems if both are NaN)
+    pd_dev = [0.0 if (np.isnan(a) and np.isnan(b)) else abs(a - b) / max(abs(a), 1e-300) for a, b in zip(p0, p1)]
+    o.check(all(d <= 1e-9 for d in pd_dev), "pressure_drops_differ", "%s vs %s" % (p0[:4], p1[:4]))
     o.nontrivial = not (u["length"] == "m" and u["temperature"] == "kelvin" and (u["mass"], u["time"]) == ("kg", "s"))
     return o
 
